@@ -4,7 +4,10 @@ EXTENDS TrainLoop
 MCParams ==
   {[k |-> k, rule |-> r, max |-> m, evo |-> e, elitism |-> el, mutate_elite |-> me, target |-> t] :
      k \in 1..2, r \in {"any", "sum"}, m \in {8}, e \in BOOLEAN, el \in BOOLEAN, me \in BOOLEAN, t \in BOOLEAN}
-MCParams3 ==
+MCParams2 ==
   {[k |-> k, rule |-> r, max |-> m, evo |-> e, elitism |-> el, mutate_elite |-> me, target |-> t] :
-     k \in 1..3, r \in {"any", "sum"}, m \in {6, 12}, e \in BOOLEAN, el \in BOOLEAN, me \in BOOLEAN, t \in BOOLEAN}
+     k \in 1..2, r \in {"any", "sum"}, m \in {8, 16}, e \in BOOLEAN, el \in BOOLEAN, me \in BOOLEAN, t \in BOOLEAN}
+MCParams3 ==
+  {[k |-> 3, rule |-> r, max |-> 8, evo |-> TRUE, elitism |-> el, mutate_elite |-> me, target |-> FALSE] :
+     r \in {"any", "sum"}, el \in BOOLEAN, me \in BOOLEAN}
 ================================================================================
